@@ -30,6 +30,88 @@ ESCAPES = {'a': '\a', 'b': '\b', 'f': '\f', 'n': '\n', 'r': '\r', 't': '\t', '0'
 BASES = {'hex_literal': '16', 'oct_literal': '8', 'bin_literal': '2', 'dec_literal': '10'}
 
 
+def _scanner_tabulation(repo, chk):
+    """Scanner / Marker, interpreted exhaustively over small sources (all line lists with up to 3 lines of up to 3
+    characters over {a, b}), every cursor position and every short operand, against the specification: the cursor
+    advances by exactly what was consumed, and only on success."""
+    import itertools
+    import re as _re
+    it = Interp(repo)
+    sc = it.load(SCANNER)
+    SC, Scanner = sc['SourceCode'], sc['Scanner']
+    alphabet = 'ab'
+    lines_pool = [''] + [''.join(t) for n in (1, 2, 3) for t in itertools.product(alphabet, repeat=n)]
+    sources = [[l] for l in lines_pool] + [[x, y] for x in ('', 'a', 'ab') for y in ('', 'b', 'ba')] + [['a', '', 'b'], []]
+    strings = [''.join(t) for n in (1, 2) for t in itertools.product(alphabet, repeat=n)]
+    pats = [(_re.compile('a+'), 0), (_re.compile('(a)(b)?'), 2), (_re.compile('b(a)'), 1), (_re.compile('x'), 0), (_re.compile('a*'), 0)]
+    bad = {}
+    n = 0
+
+    def note(k, msg):
+        bad.setdefault(k, msg)
+    try:
+        for lines in sources:
+            src_obj = SC('f', list(lines))
+            nl = max(len(lines), 1)
+            for li in range(nl):
+                text = lines[li] if lines else ''
+                for col in range(len(text) + 1):
+                    for st in strings:
+                        s_ = Scanner(src_obj, li, col)
+                        r = s_.exact(st)
+                        n += 1
+                        hit = text[col:col + len(st)] == st
+                        if bool(r) != hit or s_.col != col + (len(st) if hit else 0) or s_.line != li:
+                            note('Scanner.exact', f'{lines} at {li}:{col} exact({st!r}) -> {r!r}, col {s_.col}')
+                    for cnt in (1, 2, 3):
+                        s_ = Scanner(src_obj, li, col)
+                        r = s_.read(cnt)
+                        n += 1
+                        avail = col + cnt <= len(text)
+                        if (r != text[col:col + cnt] if avail else r is not None) or s_.col != col + (cnt if avail else 0):
+                            note('Scanner.read', f'{lines} at {li}:{col} read({cnt}) -> {r!r}, col {s_.col}')
+                    for pat, ngroups in pats:
+                        s_ = Scanner(src_obj, li, col)
+                        r = s_.match(pat)
+                        n += 1
+                        mo = pat.match(text, col)
+                        if mo is None:
+                            ok = r is None and s_.col == col
+                        else:
+                            g = mo.groups('')
+                            want = mo.group() if not g else (g[0] if len(g) == 1 else g)
+                            ok = r == want and s_.col == mo.end()
+                        if not ok:
+                            note('Scanner.match', f'{lines} at {li}:{col} match({pat.pattern!r}) -> {r!r}, col {s_.col}')
+                    s_ = Scanner(src_obj, li, col)
+                    at_eol = col >= len(text)
+                    more = not (at_eol and li >= len(lines) - 1)
+                    n += 1
+                    if bool(s_.eol) != at_eol or bool(s_) != more:
+                        note('Scanner.eol / __bool__', f'{lines} at {li}:{col}: eol {s_.eol}, more {bool(s_)}')
+                    mk = s_.mark()
+                    moved = s_.linebreak()
+                    if bool(moved) != (at_eol and more) or (s_.line, s_.col) != ((li + 1, 0) if at_eol and more else (li, col)):
+                        note('Scanner.linebreak', f'{lines} at {li}:{col}: linebreak -> {moved}, now {s_.line}:{s_.col}')
+                    sp = mk.advance()
+                    if (sp.start.line, sp.start.col, sp.end.line, sp.end.col) != (li, col, s_.line, s_.col) or \
+                            (mk.cursor.line, mk.cursor.col) != (s_.line, s_.col):
+                        note('Marker.advance', f'{lines} at {li}:{col}: span {sp}, marker now {mk.cursor}')
+                    s_.exact(text[col:col + 1] or 'a')
+                    mk.restore()
+                    if (s_.line, s_.col) != (mk.cursor.line, mk.cursor.col):
+                        note('Marker.restore', f'{lines}: restore leaves the scanner at {s_.line}:{s_.col}, marker {mk.cursor}')
+    except Exception as e:      # noqa: BLE001
+        note('Scanner (interpretation)', f'{type(e).__name__}: {e}')
+    for k in ('Scanner.exact', 'Scanner.match', 'Scanner.read', 'Scanner.linebreak', 'Scanner.eol / __bool__', 'Marker.advance',
+              'Marker.restore', 'Scanner (interpretation)'):
+        if k in bad or k != 'Scanner (interpretation)':
+            chk.expect(k not in bad, 'C12.R5', k, bad.get(k, 'agrees with the specification on every enumerated source / position / operand'),
+                       SCANNER)
+    chk.count('scanner_evaluations', n)
+    chk.floor('scanner evaluations', n, 1000)
+
+
 def run(repo, chk):
     chk.explanation = (
         'The lexer is a set of regular expressions, tables and five small readers.  Each pattern is compared for '
@@ -79,14 +161,24 @@ def run(repo, chk):
             chk.expect(langs[name].groups == 0, 'C12.R1', f'pattern {name} groups', 'no capture group (whole match is used)', READERS)
     # integer reader: pattern <-> base pairing and order (prefixed forms before decimal)
     ri = repo.find_func(READERS, 'read_int_token')
+    # on the paths of the reader: the pattern whose match is converted by each `return tokens.IntToken(int(<text>, <base>))`,
+    # and the order in which the patterns are tried (the path on which every pattern fails)
     pairs = []
-    for n in ast.walk(ri):
-        if isinstance(n, ast.If) and isinstance(n.test, ast.NamedExpr) and src(n.test.value).startswith('scan.match('):
-            pat = src(n.test.value.args[0])
-            ret = [src(r.value) for s in n.body for r in ast.walk(s) if isinstance(r, ast.Return) and r.value is not None]
-            pairs.append((pat, ret[0] if ret else None, n.lineno))
-    pairs.sort(key=lambda x: x[2])
-    got = {p: r for p, r, _ in pairs}
+    tried = []
+    for pth in efg.enumerate_paths(ri):
+        matches = [e for e in pth.events if e.kind == 'call' and e.func == '.match' and e.recv is not None and src(e.recv) == 'scan' and e.args]
+        seq = [src(e.args[0]) for e in matches]
+        if len(seq) > len(tried):
+            tried = seq
+        rets = [e for e in pth.events if e.kind == 'return' and e.value is not None and not (isinstance(e.value, ast.Constant) and e.value.value is None)]
+        if rets and matches:
+            pairs.append((seq[-1], src(rets[-1].value), matches[-1].line))
+    got = {}
+    for pat, r, _ in pairs:
+        got.setdefault(pat, r)
+        if got[pat] != r:
+            got[pat] = f'{got[pat]} / {r}'
+    pairs = [(p_, None, 0) for p_ in tried]
     for pat, base in BASES.items():
         chk.expect(got.get(pat) == f'tokens.IntToken(int(lit, {base}))', 'C12.R1', f'read_int_token::{pat}',
                    f'{pat} must be converted with base {base}: {got.get(pat)}', READERS)
@@ -208,8 +300,18 @@ def run(repo, chk):
 
     # ---------------- R4 -----------------------------------------------------------------
     lex = repo.find_func(LEXER, 'lex')
-    lists = [n for n in ast.walk(lex) if isinstance(n, ast.Assign) and src(n.targets[0]) == 'tok_readers']
-    readers = [src(e) for e in lists[0].value.elts] if lists and isinstance(lists[0].value, ast.List) else []
+    # the sequence the readers are tried in: the loop `for reader in <sequence of readers.read_*>` in lex() or in a helper
+    # of the lexer module that lex() calls (the sequence may be a local, a literal, or a module-level constant)
+    readers, reader_fn = [], None
+    for fname, fn in repo.functions(LEXER).items():
+        for loop in [n for n in ast.walk(fn) if isinstance(n, ast.For)]:
+            seq = loop.iter
+            if isinstance(seq, ast.Name):
+                defs = [n.value for n in ast.walk(fn) if isinstance(n, ast.Assign) and any(isinstance(t, ast.Name) and t.id == seq.id for t in n.targets)]
+                seq = defs[0] if len(defs) == 1 else seq
+            if isinstance(seq, (ast.List, ast.Tuple)) and seq.elts and all(src(e).startswith('readers.read_') for e in seq.elts):
+                readers, reader_fn = [src(e) for e in seq.elts], fname
+    reader_calls = {'reader'} | ({reader_fn} if reader_fn and reader_fn != 'lex' else set())
     want = {'readers.read_symbol_token', 'readers.read_ident_or_keyword_token', 'readers.read_int_token',
             'readers.read_string_token', 'readers.read_char_token'}
     chk.expect(set(readers) == want and len(readers) == 5, 'C12.R4', 'lex::tok_readers', f'{readers}', LEXER)
@@ -247,7 +349,7 @@ def run(repo, chk):
             continue
         i_ws = [i for i, e in enumerate(ev) if e.kind == 'call' and e.func == '.skip_whitespace']
         i_mark = [i for i, e in enumerate(ev) if e.kind == 'assign' and e.target == 'marker' and src(e.value) == 'scan.mark()']
-        i_read = [i for i, e in enumerate(ev) if e.kind == 'call' and e.func == 'reader']
+        i_read = [i for i, e in enumerate(ev) if e.kind == 'call' and e.func in reader_calls]
         i_adv = [i for i, e in enumerate(ev) if e.kind == 'call' and e.func == '.advance' and src(e.recv) == 'marker']
         if i_ws and i_mark and i_read and i_adv:
             last_mark = max(m for m in i_mark if m < i_read[0]) if any(m < i_read[0] for m in i_mark) else None
@@ -262,22 +364,7 @@ def run(repo, chk):
     chk.expect(ok_paths > 0, 'C12.R5', 'lex::span order', f'{ok_paths} token-producing paths', LEXER)
     rets = [src(n.value) for n in ast.walk(lex) if isinstance(n, ast.Return) and n.value is not None]
     chk.expect(rets == ['marker.cursor'], 'C12.R5', 'lex::end position', f'{rets}', LEXER)
-    sc = repo.methods(SCANNER, 'Scanner')
-    t = src(sc['exact'])
-    chk.expect('length = len(string)' in t and 'curline[self.col:self.col + length] == string' in t and 'self.col += length' in t,
-               'C12.R5', 'Scanner.exact', 'advance by len(string) only on an exact match', SCANNER)
-    t = src(sc['match'])
-    chk.expect('pat.match(self.source[self.line], self.col)' in t and 'self.col = mo.end()' in t, 'C12.R5', 'Scanner.match',
-               'anchored at the cursor; cursor moves to the end of the match', SCANNER)
-    t = src(sc['read'])
-    chk.expect('self.source[self.line][self.col:self.col + count]' in t and 'len(string) == count' in t and 'self.col += count' in t,
-               'C12.R5', 'Scanner.read', 'advance by count only when count characters are available', SCANNER)
-    t = src(sc['linebreak'])
-    chk.expect('self.line += 1' in t and 'self.col = 0' in t and 'self.eol and self' in t, 'C12.R5', 'Scanner.linebreak', '', SCANNER)
-    mk = repo.methods(SCANNER, 'Marker')
-    t = src(mk['advance'])
-    chk.expect('old_cursor = self.cursor' in t and 'self.cursor = self.scan.cursor' in t and 'return Span(old_cursor, self.cursor)' in t,
-               'C12.R5', 'Marker.advance', 'span = [previous mark, current cursor)', SCANNER)
+    _scanner_tabulation(repo, chk)
 
     # ---------------- R6 -------------------------------------------------------------------
     for cls, fields in (('StringToken', ['data']), ('IntToken', ['data']), ('CharToken', ['data']), ('Ident', ['base_name', 'flavor'])):
